@@ -168,13 +168,25 @@ theorem update_timer (k : Kcp) (now : U32) (h : TimerInv k) : TimerInv (update k
 
 /-! ### `input` -/
 
+theorem mem_of_mem_dropAcked {s : Seg} {l : List Seg} (h : s ∈ dropAcked l) : s ∈ l := by
+  induction l with
+  | nil => simp [dropAcked] at h
+  | cons a t ih =>
+    unfold dropAcked at h
+    split at h
+    · exact List.mem_cons_of_mem _ (ih h)
+    · exact h
+
+theorem shrinkBuf_timer (k : Kcp) (h : TimerInv k) : TimerInv (shrinkBuf k) := by
+  rw [shrinkBuf_eq]
+  exact ⟨fun s hs => h.1 s (mem_of_mem_dropAcked hs), h.2⟩
+
 theorem inStep_timer (regular : Bool) (conv : U32) (cmd frg : BitVec 8) (wnd : BitVec 16) (ts sn una : U32)
     (payload : Bytes) (st : InLoop) (h : TimerInv st.k) :
     TimerInv (inStep regular conv cmd frg wnd ts sn una payload st).k := by
   have hpre : TimerInv (inPre regular wnd una st.k) := by
     unfold inPre parseUna
-    rw [shrinkBuf_eq]
-    unfold TimerInv
+    apply shrinkBuf_timer
     cases regular
     · exact ⟨fun s hs => h.1 s (List.mem_of_mem_drop hs), h.2⟩
     · exact ⟨fun s hs => h.1 s (List.mem_of_mem_drop hs), h.2⟩
@@ -188,10 +200,11 @@ theorem inStep_timer (regular : Bool) (conv : U32) (cmd frg : BitVec 8) (wnd : B
       split
       · exact hpre
       · exact ⟨ackLoop_timer sn _ hpre.1, hpre.2⟩
+    have h1' := shrinkBuf_timer _ h1
     unfold parseFastack
     split
-    · exact h1
-    · exact ⟨fastLoop_timer sn ts _ _ h1.1, h1.2⟩
+    · exact h1'
+    · exact ⟨fastLoop_timer sn ts _ _ h1'.1, h1'.2⟩
   · split
     · split
       · split
